@@ -192,6 +192,10 @@ def run_chunk(args):
             except subprocess.TimeoutExpired as te:
                 # the library did not return (e.g. an endless loop): reported like an abort, with the last case started
                 rc, err = -999, "TIMEOUT: harness chunk did not finish within the time limit\n" + ((te.stderr or b"").decode("utf-8", "replace") if isinstance(te.stderr, bytes) else (te.stderr or ""))
+        if rc == -999 and os.path.getsize(ops) > (64 << 20):
+            # an endless loop that keeps printing: keep the first 64 MB (whole lines) for the driver
+            with open(ops, "rb+") as ft:
+                ft.seek(64 << 20); ft.readline(); ft.truncate(ft.tell())
         for m in re.finditer(r"^STATS (\{.*\})$", err, re.M):
             try:
                 for k, v in json.loads(m.group(1)).items():
@@ -411,6 +415,10 @@ def main():
         DRIVER = private_driver
         import atexit
         atexit.register(lambda p=private_driver, me=os.getpid(): os.getpid() == me and os.path.exists(p) and os.remove(p))
+    if tier == "quick":
+        # a quick chunk takes seconds; a library that does not return is reported after minutes, not after the
+        # limits meant for the thorough tier
+        os.environ.setdefault("VERIF_CHUNK_TIMEOUT", "300"); os.environ.setdefault("VERIF_DRIVER_TIMEOUT", "600")
     harnesses = sorted({r[0] for r in cfg["runs"][tier]})
     exe_by_name, build_errors = {}, []
     from concurrent.futures import ThreadPoolExecutor
